@@ -391,6 +391,21 @@ func (e *Enc) applyContract(cur *cursor, v ssa.Value, name string, callee *ssa.F
 	e.applyContractSig(cur, v, name, callee, ct, args, sig, pos, e.m.funcEffects(callee))
 }
 
+// recordedParamName: the name parameter i of fn had in the pinned tree, if it has been renamed since
+// (contracts keep using the recorded name).
+func (m *Model) recordedParamName(fn *ssa.Function, i int) string {
+	rec := m.paramTable[m.fnName[fn]]
+	if i >= len(rec) || i >= len(fn.Params) || rec[i] == fn.Params[i].Name() {
+		return ""
+	}
+	for _, p := range fn.Params {
+		if p.Name() == rec[i] {
+			return "" // the recorded name is in use by (another) parameter: no guessing
+		}
+	}
+	return rec[i]
+}
+
 func paramNames(callee *ssa.Function, sig *types.Signature) []string {
 	var out []string
 	if callee != nil {
@@ -439,6 +454,12 @@ func (e *Enc) calleeCtx(cur *cursor, callee *ssa.Function, sig *types.Signature,
 		sc.vars[n] = sv
 		sc.oldVars[n] = sv
 		sc.vars[fmt.Sprintf("arg%d", i)] = sv
+		if callee != nil {
+			if rn := e.m.recordedParamName(callee, i); rn != "" {
+				sc.vars[rn] = sv
+				sc.oldVars[rn] = sv
+			}
+		}
 	}
 	res := sig.Results()
 	for i := 0; i < res.Len() && i < len(results); i++ {
@@ -1041,6 +1062,10 @@ func (e *Enc) specCtxPost(fc *fctx, st *State, guard string, results []string) *
 		sc.oldVars[p.Name()] = sv
 		sc.vars[fmt.Sprintf("arg%d", i)] = sv
 		sc.oldVars[fmt.Sprintf("arg%d", i)] = sv
+		if rn := e.m.recordedParamName(fc.fn, i); rn != "" {
+			sc.vars[rn] = sv
+			sc.oldVars[rn] = sv
+		}
 	}
 	for fv, v := range fc.freevars {
 		if pt, ok := fv.Type().Underlying().(*types.Pointer); ok && v.K == vTerm {
